@@ -217,10 +217,14 @@ def run_ds(case, ctx, base, faults, rng):
     left, right = base_pair(rng, base)
     applied = []
     for side, f in faults:
-        if side == "left":
-            left, ok = apply_ds_fault(left, f, rng, True)
-        else:
-            right, ok = apply_ds_fault(right, f, rng, False)
+        try:
+            if side == "left":
+                left, ok = apply_ds_fault(left, f, rng, True)
+            else:
+                right, ok = apply_ds_fault(right, f, rng, False)
+        except Exception:  # pylint: disable=broad-except
+            # two faults that cannot be combined on one dataset (e.g. two edits of the same variable): keep the first
+            ok = False
         if ok:
             applied.append([side, f])
     expect = ds_well_formed(left, right)
